@@ -494,7 +494,19 @@ def keyword_word_boundary_rule(ctx, res, rule: str) -> None:
                 continue
             n += 1
             ok = False
+            # a slice that starts at a computed word start is a whole word already
+            lo = sl.slice.lower
+            if lo is not None:
+                if any(isinstance(c, ast.Call) and call_name(c) == "_find_word_start" for c in ast.walk(lo)):
+                    ok = True
+                if isinstance(lo, ast.Name):
+                    for st in walk_local(f.node):
+                        if isinstance(st, ast.Assign) and any(isinstance(t, ast.Name) and t.id == lo.id for t in st.targets) and \
+                                any(isinstance(c, ast.Call) and call_name(c) == "_find_word_start" for c in ast.walk(st.value)):
+                            ok = True
             for b in walk_local(f.node):
+                if ok:
+                    break
                 if isinstance(b, ast.BoolOp) and any(v is x for v in b.values):
                     ok = any(isinstance(c, ast.Call) and call_name(c) in ("_is_id_char", "isalnum", "isidentifier", "_find_word_start")
                              for v in b.values if v is not x for c in ast.walk(v))
